@@ -21,7 +21,7 @@ func init() {
 }
 
 func runRoundTrip(o opts, out *Output, sig int) {
-	out.Imports = "From Verif Require Import Base.ListX Obf.Obfuscate Otlp.Equiv Otlp.Ids Otap.Tables Otap.Attrs."
+	out.Imports = "From Verif Require Import Base.ListX Obf.Obfuscate Otlp.Equiv Otlp.Ids Otlp.Atoms Otap.Tables Otap.Attrs."
 	var tb strings.Builder
 	tb.WriteString("Definition table_cases : list tcase := [\n")
 	nt := 0
